@@ -88,7 +88,10 @@ EmptyStore ==
     rec    |-> [open |-> FALSE, log |-> <<>>],  \* snapshot recorder
     wl     |-> {},      \* write latches held: set of <<block, actor>>
     strm   |-> <<>>,    \* commits handed to the logger, in order
-    tp     |-> "log" ]  \* transport of the logger: "chan" (clone of all buffers) or "log" (committed block only)
+    tp     |-> "log",   \* transport of the logger: "chan" (clone of all buffers) or "log" (committed block only)
+    rp     |-> 0,       \* number of commits of the source stream replayed here (replicas)
+    gt     |-> EmptyFn ]\* (ghost) name -> [Offsets -> <<has, value>>]: what the committed history says each row holds,
+                        \* computed row by row, independently of the buffer machinery (C01)
 
 KeyCol(S) == IF \E n \in DOMAIN S.reg : S.reg[n].k = "key"
              THEN CHOOSE n \in DOMAIN S.reg : S.reg[n].k = "key" ELSE None
@@ -231,8 +234,39 @@ RECURSIVE ColsPass(_, _, _, _)
 ColsPass(R, names, b, F) ==
   IF names = <<>> THEN R ELSE ColsPass(ColPass(R, Head(names), b, F), Tail(names), b, F)
 
+
+\* ---- ghost: the per-row meaning of a block commit (what the properties promise), no buffers, no passes.
+\* For one row: it is live afterwards iff its last effective marker says so (or, without marker, it was live);
+\* a row that is not live holds nothing; a row deleted or inserted by this commit starts empty; then the
+\* commit's writes to each column are folded in issue order (merge of an absent value starts from zero).
+RECURSIVE FoldCol(_, _, _)
+FoldCol(desc, cur, ops) ==     \* cur = <<has, v>>
+  IF ops = <<>> THEN cur ELSE
+  LET e  == Head(ops)
+      nv == IF e.k = "mrg" THEN MergeFn(desc.m, IF cur[1] THEN cur[2] ELSE Zero(desc), e.v) ELSE e.v
+  IN FoldCol(desc, IF e.k = "skip" \/ e.x THEN cur
+                   ELSE IF desc.k = "bool" /\ nv = FALSE THEN <<FALSE, FALSE>> ELSE <<TRUE, nv>>, Tail(ops))
+
+RECURSIVE LiveAfter(_, _)
+LiveAfter(was, ops) ==         \* <<live, touched>>
+  IF ops = <<>> THEN was ELSE
+  LET e == Head(ops) IN
+  LiveAfter(IF e.x THEN was ELSE IF e.k = "ins" THEN <<TRUE, TRUE>> ELSE IF was[1] THEN <<FALSE, TRUE>> ELSE was, Tail(ops))
+
+GhostBlock(S, bufs, b) ==
+  LET rowOf(o) == LiveAfter(<<o \in S.live, FALSE>>, OfOffset(OpsOfBlock(BufOps(bufs, "row"), b), o))
+      touched == UNION {{bufs[n][i].o : i \in {i \in DOMAIN bufs[n] : BlockOf(bufs[n][i].o) = b}} : n \in DOMAIN bufs}
+  IN
+  [n \in DOMAIN S.gt |->
+     [o \in Offsets |->
+        IF o \notin touched THEN S.gt[n][o]
+        ELSE LET la == rowOf(o) IN
+             IF ~la[1] THEN <<FALSE, Zero(S.reg[n])>>
+             ELSE FoldCol(S.reg[n], IF la[2] THEN <<FALSE, Zero(S.reg[n])>> ELSE S.gt[n][o],
+                          OfOffset(OpsOfBlock(BufOps(bufs, n), b), o))]]
+
 ApplyBlock(S, bufs, b, id, F) ==
-  LET S0    == [Grow(S, b) EXCEPT !.lastId[b + 1] = id]
+  LET S0    == [Grow(S, b) EXCEPT !.lastId[b + 1] = id, !.gt = GhostBlock(S, bufs, b)]
       noFire == [n \in DOMAIN S.tg |-> <<>>]
       R1    == RowPass([S |-> S0, fired |-> noFire], OpsOfBlock(BufOps(bufs, "row"), b), F)
       names == SetToSeq({n \in DOMAIN bufs : n # "row" /\ n \in DOMAIN S.reg})
@@ -404,7 +438,7 @@ Unlatch(t) ==
 (* Replay of an emitted commit on another collection (Collection.Replay):   *)
 (* a transaction whose buffers are the commit's buffers.                    *)
 
-ReplayBegin(t, c, cm) ==
+ReplayBegin(t, c, cm, ri) ==
   /\ txn[t].pc \in {"idle", "done"}
   /\ \E mode \in Modes("D-replay-all-blocks") :
        LET bufs == [n \in DOMAIN cm.bufs |-> [i \in DOMAIN cm.bufs[n] |-> cm.bufs[n][i] @@ [x |-> FALSE]]]
@@ -413,7 +447,7 @@ ReplayBegin(t, c, cm) ==
           /\ dev' = IF mode = "asbuilt" THEN dev \cup {"D-replay-all-blocks"} ELSE dev
           /\ txn' = [txn EXCEPT ![t] = [IdleTxn EXCEPT !.pc = "commit", !.c = c, !.bufs = bufs,
                                                        !.dirty = d, !.replay = TRUE]]
-          /\ st' = [st EXCEPT ![c] = Grow(@, MaxOf(d))]
+          /\ st' = [st EXCEPT ![c] = [Grow(@, MaxOf(d)) EXCEPT !.rp = ri]]
   /\ UNCHANGED <<used, files>>
 
 -----------------------------------------------------------------------------
@@ -424,7 +458,8 @@ CreateColumn(c, n, desc) ==
   /\ st' = [st EXCEPT ![c].reg = @ @@ (n :> desc),
                       ![c].has = @ @@ (n :> {}),
                       ![c].data = @ @@ (n :> [o \in Offsets |-> Zero(desc)]),
-                      ![c].canon = IF desc.k = "enum" THEN @ @@ (n :> <<>>) ELSE @]
+                      ![c].canon = IF desc.k = "enum" THEN @ @@ (n :> <<>>) ELSE @,
+                      ![c].gt = @ @@ (n :> [o \in Offsets |-> <<FALSE, Zero(desc)>>])]
   /\ UNCHANGED <<txn, used, files, dev>>
 
 \* back-fill from the column's current contents
@@ -525,6 +560,7 @@ BulkReplay(c, cm, id) ==
      /\ st' = [st EXCEPT ![c] = [S EXCEPT
                   !.lastId[cm.b + 1] = id,
                   !.filler = IF cm.bulk[1] = "ins" THEN AddRun(@, cm.bulk[2], cm.bulk[3]) ELSE CutRun(@, cm.bulk[2], cm.bulk[3]),
+                  !.rp = @ + 1,
                   !.strm = Append(@, [id |-> id, b |-> cm.b, bulk |-> cm.bulk])]]
   /\ used' = used \cup {id}
   /\ UNCHANGED <<txn, files, dev>>
@@ -547,6 +583,14 @@ Project(S) ==
    index  |-> [n \in DOMAIN S.ix |-> S.ix[n].set \cap S.fill],
    sorted |-> [n \in DOMAIN S.sx |-> {it \in S.sx[n].items : it[2] \in S.fill}],
    keys   |-> {p \in S.seek : TRUE}]
+
+\* C01: every live row reads back, in every column, what the committed history says it holds
+ReadBack ==
+  Excused({"D-write-dead-row", "D-swap-append", "D-failed-insert-applied", "D-enum-collision", "D-dead-delete", "D-merge-reads-stale"}) \/
+  \A c \in Colls : NoLatch(c) =>
+    \A n \in DOMAIN st[c].reg : \A o \in st[c].live :
+       LET g == st[c].gt[n][o]  v == ValueAt(st[c], n, o) IN
+       g[1] = v[1] /\ (g[1] => g[2] = v[2])
 
 \* C03: a bitmap index selects exactly the live rows whose current value satisfies the predicate
 IndexCoherent ==
